@@ -588,7 +588,7 @@ func TestVerifC26PathCodec(t *testing.T) {
 			identifies := hasS || hasZ || (so == lo && wallUnambiguous)
 
 			// --- the name, as the recorder builds it (recorder_instance.go + format_*_segment.go) ---
-			fmtRegexp := PathAddExtension(fs, recFormat)                                  // regexpPathFindPathsWithSegments
+			fmtRegexp := PathAddExtension(fs, recFormat)                                       // regexpPathFindPathsWithSegments
 			fmtFixed := PathAddExtension(strings.ReplaceAll(fs, "%path", pathName), recFormat) // recorder, FindSegments, fixedPathHasSegments
 			name := Path{Start: start}.Encode(fmtFixed)
 
